@@ -83,6 +83,15 @@ CAT = {
     'resp_cl_bad': [B(':status', '200'), B('content-length', 'abc')],
     'resp_cl_neg': [B(':status', '200'), B('content-length', '-1')],
     'empty': [],
+    # ---- corner cases added in round 2
+    'req_secure_pad': req(extra=[B('Authorization', ' secret '), B('proxy-authorization ', 'p'), B('cookie', ' a=1 ')]),
+    'req_emptyauth_host': [B(':method', 'GET'), B(':scheme', 'https'), B(':authority', ''), B(':path', '/'),
+                           B('host', 'a.example')],
+    'req_auth_emptyhost': req(extra=[B('host', '')]),
+    'resp_status_abc': [B(':status', 'abc')],
+    'resp_status_empty': [B(':status', ''), B('server', 'x')],
+    'resp_status_1xx': [B(':status', '1xx')],
+    'req_cookies_dup': req(extra=[B('cookie', 'a=1'), B('cookie', 'b=2'), B('cookie', 'c=3'), B('cookie', 'd=4'), B('cookie', 'a=1')]),
 }
 CAT['req_status'] = [B(':method', 'GET'), B(':scheme', 'https'), B(':authority', 'a.example'), B(':path', '/'),
                      B(':status', '200')]
